@@ -19,6 +19,10 @@ import (
 
 var untypedBoolTypeInfo = &typeInfo{Type: boolType, Properties: propertyUntyped}
 
+// maxFuncParamsAndResults is the maximum number of parameters and results,
+// counted together, of a function type. It is the limit of reflect.FuncOf.
+const maxFuncParamsAndResults = 128
+
 // checkIdentifier checks an identifier. If used, ident is marked as "used".
 func (tc *typechecker) checkIdentifier(ident *ast.Identifier, used bool) *typeInfo {
 
@@ -600,6 +604,12 @@ func (tc *typechecker) typeof(expr ast.Expression, typeExpected bool) *typeInfo 
 				}
 				panic(tc.errorf(ident, "invalid macro result type %s", ident.Name))
 			}
+		}
+		// reflect.FuncOf panics if there are more than 128 parameters and
+		// results in total.
+		if numIn+numOut > maxFuncParamsAndResults {
+			panic(tc.errorf(expr, "too many parameters and results in function type (%d, the limit is %d)",
+				numIn+numOut, maxFuncParamsAndResults))
 		}
 		expr.Reflect = tc.types.FuncOf(in, out, variadic)
 		return &typeInfo{Type: expr.Reflect, Properties: propertyIsType}
